@@ -327,3 +327,43 @@ Proof.
   - destruct (c_enc P c packet) as [o c']. intros H. injection H as <- _. reflexivity.
   - destruct (c_enc P c (skipn 4 packet)) as [o c']. intros H. injection H as <- _. reflexivity.
 Qed.
+
+(* ---- generated source facts (coq/Gen/C02_gen.v) ------------------------------------------------ *)
+From PV Require Import C02_gen.
+
+Lemma fold_xor_acc : forall a b res,
+  fold_left (fun r xy => Z.lor r (Z.lxor (fst xy) (snd xy))) (combine a b) res = xor_acc res a b.
+Proof.
+  induction a as [|x a IH]; intros [|y b] res; cbn; try reflexivity. apply IH.
+Qed.
+
+Lemma source2_cteq : forall a b, g2_cteq a b = constant_time_bytes_eq a b.
+Proof.
+  intros a b. unfold g2_cteq, constant_time_bytes_eq, g2_cteq_acc, g2_cteq_cmp, g2_cteq_init, g2_cteq_final.
+  now rewrite fold_xor_acc.
+Qed.
+
+Lemma source2_mac_layout : forall seq size packet,
+  mac_input seq size packet =
+  be_encode (Z.to_nat (nth 0 g2_mac_recv_fields 0)) seq ++ be_encode (Z.to_nat (nth 1 g2_mac_recv_fields 0)) size ++ packet
+  /\ length g2_mac_recv_fields = 2%nat /\ g2_mac_send_fields = [4].
+Proof. intros. repeat split; reflexivity. Qed.
+
+(* position of the first / last occurrence of an event in the source order *)
+Fixpoint first_pos (x : Z) (l : list Z) (i : Z) : Z :=
+  match l with [] => -1 | y :: r => if y =? x then i else first_pos x r (i + 1) end.
+Fixpoint last_pos (x : Z) (l : list Z) (i acc : Z) : Z :=
+  match l with [] => acc | y :: r => last_pos x r (i + 1) (if y =? x then i else acc) end.
+Definition present (x : Z) (l : list Z) : bool := 0 <=? first_pos x l 0.
+Definition before (x y : Z) (l : list Z) : bool :=      (* every x precedes every y; both occur *)
+  present x l && present y l && (last_pos x l 0 (-1) <? first_pos y l 0).
+
+(* every tag check (1 ETM, 3 AEAD decrypt, 5 classic) precedes every use of the packet contents
+   (6 payload slice, 7 decompress, 8 Message, 10 return); the ETM check precedes any decryption (2);
+   the sequence number is stored (9) after the checks and before the return *)
+Definition read_order_ok (l : list Z) : bool :=
+  forallb (fun c => forallb (fun u => before c u l) [6; 7; 8; 9; 10]) [1; 3; 5] &&
+  (last_pos 1 l 0 (-1) <? first_pos 2 l 0) && before 3 4 l && before 6 7 l && before 7 8 l && before 8 10 l.
+
+Lemma source2_order : read_order_ok g2_read_order = true.
+Proof. vm_compute. reflexivity. Qed.
